@@ -1,32 +1,91 @@
 #!/usr/bin/env python3
-"""Applies each /verif/seeded/<name>/patch.diff to /repo, runs the property's check, reverts.
-usage: tools/run_seeded.py [name…]   (default: all).  Writes seeded/RESULTS.md."""
-import json, os, subprocess, sys, time
+"""Runs the property's check against each /verif/seeded/<name>/patch.diff.
+
+usage: tools/run_seeded.py [--inplace] [--tier T] [name…]   (default: all)
+
+Default mode: the patch is applied to a scratch copy of /repo's working tree under
+/var/tmp and the check runs in alternative-tree mode (VERIF_REPO=<copy>), so /repo is
+never touched and other work can go on.  --inplace: `git -C /repo apply`, run the
+registered command, `git -C /repo checkout -- .` (the way the checks are used for real;
+refuses when /repo has uncommitted changes).  Results are merged into seeded/RESULTS.json
+and rendered to seeded/RESULTS.md."""
+import json, os, shutil, subprocess, sys, time
 V = "/verif"
-names = sys.argv[1:] or sorted(d for d in os.listdir(V + "/seeded") if os.path.isdir(V + "/seeded/" + d))
-rows = []
+args = sys.argv[1:]
+inplace = "--inplace" in args
+args = [a for a in args if a != "--inplace"]
+tier = None
+if "--tier" in args:
+    i = args.index("--tier"); tier = args[i + 1]; del args[i:i + 2]
+names = args or sorted(d for d in os.listdir(V + "/seeded") if os.path.isdir(V + "/seeded/" + d))
+res_path = V + "/seeded/RESULTS.json"
+results = json.load(open(res_path)) if os.path.exists(res_path) else {}
+
+
+def head():
+    return subprocess.run(["git", "-C", "/repo", "rev-parse", "--short", "HEAD"], capture_output=True, text=True).stdout.strip()
+
+
 for n in names:
     d = os.path.join(V, "seeded", n)
     meta = json.load(open(os.path.join(d, "meta.json")))
     pid = meta["property"]
-    if subprocess.run(["git", "-C", "/repo", "diff", "--quiet"]).returncode != 0:
-        print("refusing: /repo has uncommitted changes"); sys.exit(2)
-    r = subprocess.run(["git", "-C", "/repo", "apply", os.path.join(d, "patch.diff")], capture_output=True, text=True)
+    t = tier or meta.get("tier", "quick")
+    env = dict(os.environ)
+    copy = None
+    if inplace:
+        if subprocess.run(["git", "-C", "/repo", "diff", "--quiet"]).returncode != 0:
+            print("refusing: /repo has uncommitted changes"); sys.exit(2)
+        r = subprocess.run(["git", "-C", "/repo", "apply", os.path.join(d, "patch.diff")], capture_output=True, text=True)
+    else:
+        copy = "/var/tmp/wv-seeded-" + n
+        shutil.rmtree(copy, ignore_errors=True)
+        os.makedirs(copy)
+        subprocess.run(["rsync", "-a", "--exclude", ".git", "--exclude", "test/3pdata", "--exclude", "/gen", "/repo/", copy + "/"], check=True)
+        r = subprocess.run(["patch", "-p1", "-s", "-i", os.path.join(d, "patch.diff")], cwd=copy, capture_output=True, text=True)
+        env["VERIF_REPO"] = copy
     if r.returncode != 0:
-        rows.append((n, pid, "PATCH-DOES-NOT-APPLY", r.stderr.strip()[:200])); continue
+        results[n] = {"property": pid, "verdict": "PATCH-DOES-NOT-APPLY", "detail": (r.stderr + r.stdout).strip()[:300], "repo": head()}
+        if copy:
+            shutil.rmtree(copy, ignore_errors=True)
+        print(n, results[n]); continue
     t0 = time.time()
     try:
-        checks = meta.get("checks", [pid])
         verdicts = []
-        for c in checks:
-            p = subprocess.run(["./check", c, "--tier", meta.get("tier", "quick")], cwd=V, capture_output=True, text=True)
+        for c in meta.get("checks", [pid]):
+            p = subprocess.run(["./check", c, "--tier", t], cwd=V, capture_output=True, text=True, env=env)
             line = next((l for l in p.stdout.splitlines() if l.startswith("VIOLATION")), "")
-            verdicts.append("%s:%s" % (c, "CAUGHT" + (" (no-failing-input-found)" if "no-failing-input" in line else "") if p.returncode == 1 and line else "MISSED rc=%d" % p.returncode))
-        rows.append((n, pid, "; ".join(verdicts), "%.0fs" % (time.time() - t0)))
+            last = p.stdout.strip().splitlines()[-1] if p.stdout.strip() else ""
+            replay = ""
+            if line:
+                rp = line.split("replay=")[1].split()[0]
+                try:
+                    txt = open(rp).read()
+                    replay = "\n".join(txt.splitlines()[:6])[:600]
+                except OSError:
+                    pass
+            if p.returncode == 1 and line:
+                v = "CAUGHT (no-failing-input-found)" if "no-failing-input" in line else "CAUGHT (failing input)"
+            else:
+                v = "MISSED rc=%d" % p.returncode
+            verdicts.append({"check": c, "verdict": v, "summary": last, "replay_head": replay})
+        results[n] = {"property": pid, "tier": t, "mode": "inplace" if inplace else "alt-copy", "repo": head(),
+                      "verdicts": verdicts, "wall_s": round(time.time() - t0)}
     finally:
-        subprocess.run(["git", "-C", "/repo", "checkout", "--", "."])
-    print(rows[-1], flush=True)
-with open(V + "/seeded/RESULTS.md", "w") as f:
-    f.write("| seeded change | property | verdict of ./check on /repo with the change applied | time |\n|---|---|---|---|\n")
-    for r in rows:
-        f.write("| %s | %s | %s | %s |\n" % r)
+        if inplace:
+            subprocess.run(["git", "-C", "/repo", "checkout", "--", "."])
+        else:
+            shutil.rmtree(copy, ignore_errors=True)
+    print(n, [(x["check"], x["verdict"]) for x in results[n]["verdicts"]], flush=True)
+    # merge under a re-read (several instances may run in parallel for different names)
+    cur = json.load(open(res_path)) if os.path.exists(res_path) else {}
+    cur[n] = results[n]
+    json.dump(cur, open(res_path, "w"), indent=1, sort_keys=True)
+    with open(V + "/seeded/RESULTS.md", "w") as f:
+        f.write("| seeded change | property | tier | verdict of ./check with the change applied | time | /repo at |\n|---|---|---|---|---|---|\n")
+        for k in sorted(cur):
+            x = cur[k]
+            if "verdicts" in x:
+                f.write("| %s | %s | %s | %s | %ss | %s |\n" % (k, x["property"], x.get("tier"), "; ".join("%s: %s" % (y["check"], y["verdict"]) for y in x["verdicts"]), x.get("wall_s"), x.get("repo")))
+            else:
+                f.write("| %s | %s | | %s | | %s |\n" % (k, x["property"], x["verdict"], x.get("repo")))
